@@ -232,6 +232,9 @@ func (f *Frame) checkPost(c *Contract, sig *types.Signature, o Outcome, rets []V
 		}
 	}
 	for i, e := range c.Ensures {
+		if len(e.Props) > 0 && !hasProp(e.Props, currentProp) {
+			continue
+		}
 		goal := env.evalBool(e.E)
 		f.oblige(st, "post", fmt.Sprintf("%s#post:%d@ret%d", f.key, i+1, retIdx), o.Pos, goal, e.Text)
 	}
